@@ -245,6 +245,24 @@ class DeepInliner(Inliner):
             return False
         return True
 
+    # ------------------------------------------------------------------ resolution
+    def _resolve(self, ctx: FuncInfo, call: ast.Call) -> FuncInfo | None:
+        got = super()._resolve(ctx, call)
+        if got is not None:
+            return got
+        # a callable handed in as an argument (`convert(options.pop(key))` with convert := self._labels) has been substituted into
+        # the call: resolve the rewritten call in the entry point's own context
+        root = getattr(self, "root", None)
+        src = getattr(call, "_src", None)
+        if root is None or src is None or not isinstance(call.func, ast.Attribute) or ast.dump(call.func) == ast.dump(src[1].func if isinstance(src[1], ast.Call) else call.func):
+            return None
+        try:
+            cs, how = self.T.callees(root, call, byname_fallback=False)
+        except Exception:  # noqa: BLE001
+            return None
+        cs = [c for c in cs if not c.is_abstract]
+        return cs[0] if len(cs) == 1 and how == "repo" else None
+
     # ------------------------------------------------------------------ local closures
     def _try(self, ctx: FuncInfo, call: ast.AST, form: str, taken: set[str], origin: dict, stack: tuple[str, ...]):
         if isinstance(call, ast.Call) and isinstance(call.func, ast.Name) and len(stack) <= self.max_depth:
@@ -718,6 +736,7 @@ def deep_view(repo: Repo, fi: FuncInfo, types: Types, allow=None) -> FuncInfo:
         return cache[key]
     inl = DeepInliner(repo, types, allow)
     inl.kwname = fi.node.args.kwarg.arg if fi.node.args.kwarg is not None else None
+    inl.root = fi
     origin: dict = {}
     node = _copy(fi.node, fi, origin)
     taken = _names_in(fi.node)
